@@ -57,6 +57,8 @@ var auditTable = []auditEntry{
 		Reason: "indexed by the range variable of binaryEscapes; the two escape tables have equal length (checked by C07.tables)"},
 	{Kind: "index", Func: "internal/jsoncanonicalizer.Transform$", Operand: "ortKey[φ]", Count: 2,
 		Reason: "lexicographicallyPrecedes: q < minLength and minLength = min(len(oldSortKey), len(sortKey))"},
+	{Kind: "slice", Func: "internal/jws.verifyECSignature", Operand: "$signature[", Count: 2,
+		Reason: "len(signature) = 2·keySize is established on every path (C09.size.ec) and keySize is one of the positive constants of parseEllipticCurve's table (C09.tables.verifier)"},
 	{Kind: "slice", Func: "(*operationparser.Parser).ParseDID", Operand: "strings.LastIndex($shortOrLongFormDID", Count: 2,
 		Reason: "reached only when the DID with the namespace prefix removed still contains ':'; removing substrings cannot create a ':', so LastIndex(did, \":\") ≥ 0, and LastIndex+1 ≤ len"},
 }
